@@ -179,7 +179,7 @@ def import_forms(form: str, in_init: bool, n: str, m: str, k: str) -> bool:
 MODULE_NAMES = {"g": "function", "K": "class", "i": "import", "v": "attribute"}
 K_NAMES = {"x": "attribute", "f": "method", "N": "class", "v": "attribute"}
 N_NAMES = {"y": "attribute", "h": "method"}
-ALPHABET = "gKivxfNyhou"  # o: bound only in the parent package; u: unbound (builtin/unknown)
+ALPHABET = "gKivxfNyhoumw"  # o: bound only in the parent package; u: unbound (builtin/unknown); m, w: the names of the module and of its package (not bound in the module)
 SCOPES = ["module", "K", "N", "K.f", "N.h"]
 
 
@@ -226,7 +226,7 @@ def _python_binding(scope, name):
     bounds={"package": "w{o} > w.m{g(), K, import i, v}; K{x, v, f(self), N{y, h(self)}}", "looked-up name": f"1 char over {ALPHABET!r} (own members, enclosing-class members, module globals, imports, a name bound only in the parent package, an unbound name)",
             "scopes": SCOPES},
     value_symbolic=["name"], selectors=["scope in which the expression lives (driver-bound)"], stubs=STUBS, must_cover=["member", "import", "unchanged"],
-    grid=lambda seed: [dict(scope=s, name=n) for s in SCOPES for n in "gKiu"],
+    grid=lambda seed: [dict(scope=s, name=n) for s in SCOPES for n in "gKium"],
 )
 def scope_walk(scope: str, name: str) -> bool:
     """ExprName.canonical_path == the path of what Python binds the name to in that scope; unbound names come back unchanged; never raises."""
